@@ -852,6 +852,36 @@ class Interrupt(BaseException):
     """raised by the trace function inside the traced thread: an asynchronous exception (what KeyboardInterrupt does)"""
 
 
+_CLEANUP_LINES = {}
+
+
+def cleanup_lines(filename):
+    """Source lines of `filename` at which the interpreter runs clean-up code that a real asynchronous exception cannot split
+    from the statement it belongs to: the header line of a `with` statement (the call of __enter__ and, on the way out, of
+    __exit__ carry this line number) and the body of a `finally:` clause.  CPython delivers KeyboardInterrupt and
+    PyThreadState_SetAsyncExc only at its eval-breaker checks, so that `with lock:` and `try: ... finally: lock.release()` do
+    release the lock; an exception injected from a trace function at exactly these lines would be stronger than any real one
+    and would make correct code (a construction serialised by a lock) look as if it kept the lock.  The injector therefore
+    skips these lines and raises at the next event."""
+    if filename not in _CLEANUP_LINES:
+        lines = set()
+        try:
+            import ast
+            with open(filename, "rb") as f:
+                tree = ast.parse(f.read(), filename)
+            for node in ast.walk(tree):
+                if isinstance(node, (ast.With, ast.AsyncWith)):
+                    last = max([node.lineno] + [getattr(i.context_expr, "end_lineno", node.lineno) for i in node.items]
+                               + [getattr(i.optional_vars, "end_lineno", node.lineno) for i in node.items if i.optional_vars is not None])
+                    lines.update(range(node.lineno, last + 1))
+                elif isinstance(node, ast.Try) and node.finalbody:
+                    lines.update(range(node.finalbody[0].lineno, (getattr(node.finalbody[-1], "end_lineno", None) or node.finalbody[-1].lineno) + 1))
+        except (OSError, SyntaxError, ValueError):
+            pass
+        _CLEANUP_LINES[filename] = frozenset(lines)
+    return _CLEANUP_LINES[filename]
+
+
 class Preempter:
     """Runs `fn()` in a real thread under sys.settrace; the thread is stopped when the
     `stop_at`-th (0-based) trace event ('line' or 'opcode') is about to execute.  Events are counted
@@ -877,6 +907,8 @@ class Preempter:
         self.resume = threading.Event()
         self.finished = threading.Event()
         self.frame_locals = None
+        self.stack_lists = []
+        self.returned_lists = []
         self.result = None
         self.error = None
         self.stopped = False
@@ -912,11 +944,26 @@ class Preempter:
 
     def _local(self, frame, event, arg):
         if event == ("opcode" if self.opcode else "line"):
-            if self.stop_at is not None and self.count == self.stop_at and not self.stopped:
+            if (self.stop_at is not None and self.count >= self.stop_at and not self.stopped
+                    and (self.count == self.stop_at or self.interrupt)
+                    and not (self.interrupt and frame.f_lineno in cleanup_lines(frame.f_code.co_filename))):
                 self.stopped = True
                 self.frame_locals = dict(self.watching[-1].f_locals) if self.watching else {}
                 for k, v in self.prev_locals.items():       # an earlier, completed invocation of the watched function
                     self.frame_locals.setdefault(k, v)
+                # every list held in a local variable of a frame on this thread's stack (file name, variable name, object):
+                # the observer looks for the builder's list by VALUE, wherever a rewritten builder keeps it
+                self.stack_lists = []
+                f = frame
+                while f is not None:
+                    for k, v in list(f.f_locals.items()):
+                        if isinstance(v, list):
+                            self.stack_lists.append((f.f_code.co_filename, k, v))
+                    f = f.f_back
+                for k, v in self.prev_locals.items():
+                    if isinstance(v, list):
+                        self.stack_lists.append(("", k, v))
+                self.stack_lists += [("", "<returned>", v) for v in self.returned_lists]
                 self.lineno = frame.f_lineno
                 self.where = frame.f_code.co_name
                 if self.interrupt:
@@ -930,6 +977,8 @@ class Preempter:
                 return None
             self.count += 1
         elif event == "return":
+            if isinstance(arg, list):               # a list handed back by a helper (a construction moved into a function of its own)
+                self.returned_lists = (self.returned_lists + [arg])[-8:]
             if self.watching and frame is self.watching[-1]:
                 self.prev_locals.update(frame.f_locals)     # (a later invocation that returns at once does not forget the list)
                 self.watching.pop()
